@@ -465,6 +465,84 @@ def run_c28(ctx, replay):
     vlib.finish(ctx, "model_checking", cov, assume, new, known)
 
 
+
+# ----------------------------------------------------------------------------- C34
+
+J, LV, SD, ST = {"op": "join"}, {"op": "leave"}, {"op": "shutdown"}, {"op": "state"}
+LC_CFG = "SPECIFICATION TraceSpec\nINVARIANT Done\nCONSTANT Progs = {}\n"
+
+
+def c34_scenarios(rng, thorough):
+    must = [
+        {"prog": [[LV, LV], [SD, SD], [J, ST]], "peer": False},
+        {"prog": [[LV], [LV], [SD], [J]], "peer": False},
+        {"prog": [[LV, J], [SD, LV], [ST, ST]], "peer": False},
+        {"prog": [[J, LV, SD], [ST, J]], "peer": False},
+        {"prog": [[LV, LV, SD, SD, J], [ST, ST, ST]], "peer": False},
+        {"prog": [[LV], [SD], [J]], "peer": True},
+        {"prog": [[LV, LV], [J, SD], [ST]], "peer": True},
+    ]
+    if thorough:
+        must.append({"prog": [[J], [LV], [LV], [SD], [SD]], "peer": False})
+    extra = []
+    for _ in range(20 if thorough else 4):
+        prog = [[rng.choice([J, LV, LV, SD, SD, ST]) for _k in range(rng.randint(1, 3))] for _t in range(rng.randint(2, 4))]
+        extra.append({"prog": prog, "peer": rng.random() < 0.3})
+    return must + extra
+
+
+def c34_model(ctx, thorough):
+    cfg = "CONSTANT Progs <- %s\nINIT Init\nNEXT Next\nINVARIANT %s\nINVARIANT NoDeadlock\n"
+    mc = vlib.tlc(ctx, "MC_Lifecycle", cfg % ("MCAll" if thorough else "MCQuick", "C34"), timeout=2400)
+    if mc.violated:
+        raise vlib.Inconclusive("model violates %s -- spec error or a defect the code reading missed; no verdict from the model alone" % mc.violated)
+    return mc
+
+
+def run_c34(ctx, replay):
+    thorough = ctx.thorough()
+    binary = build(ctx, "C34")
+    mc = None
+    if replay:
+        summary, rep, viol = replay_only(ctx, "C34", binary, "Trace_Lifecycle", LC_CFG, replay)
+        scens, tp = [], os.path.join(ctx.scratch, "retrace.ndjson")
+    else:
+        mc = c34_model(ctx, thorough)
+        scens = c34_scenarios(random.Random(ctx.seed), thorough)
+        args = ["-procs", "4"] + (["-maxpre", "2", "-budget1", "800", "-budget", "400", "-random", "60"] if thorough else
+                                  ["-maxpre", "2", "-budget1", "140", "-budget", "30", "-random", "15"])
+        summary, rep, viol = explore_and_validate(ctx, "C34", binary, scens, "Trace_Lifecycle", LC_CFG, args,
+                                                  chunks=6 if thorough else 4)
+        tp = os.path.join(ctx.scratch, "trace.ndjson")
+    ml_panics = 0
+    with open(tp) as f:
+        for ln in f:
+            if '"ret":"panic_ml"' in ln:
+                ml_panics += 1
+    new, known = vlib.classify(ctx.prop, viol)
+    cov = {
+        "states": mc.distinct if mc else 1, "transitions": mc.generated if mc else 1, "exhaustive": bool(mc),
+        "model_constants": "programs over join/leave/shutdown/state: {LL | SS | J St}, {L J | S L | St St}, {J L S | St J}, "
+                           "{L L S S J | St St St}" + (", {L | L | S | J}, {J | L | L | S | S}" if thorough else "") + ", every interleaving",
+        "traces_validated_against_impl": rep.traces, "trace_lines": rep.lines, "divergences": len(rep.diverged),
+        "evaluations": summary["schedules"], "distinct_nontrivial": rep.traces,
+        "scenarios": summary["scenarios"], "scenarios_with_complete_dfs": summary["dfs_complete"],
+        "child_process_crashes": summary["crashes"], "deadlocked_or_hung_schedules": summary["hung"],
+        "memberlist_leave_after_shutdown_panics_survived": ml_panics,
+        "rule": "2-5 threads calling Join / Leave / Shutdown / State (1-5 calls each) on a real quiet serf node (in-process "
+                "transport, optionally with a joined peer) with yield-instrumented Serf.Leave/Shutdown/Join/State under every schedule "
+                "with <= 1 preemption up to a budget, a sample with <= 2, plus seeded random schedules; State() is sampled after every "
+                "step; each schedule is one trace validated against Lifecycle.tla",
+        "samples": scens[:2],
+    }
+    assume = ["yield points before every statement of Serf.Leave/Shutdown/Join/State; Lock calls become cooperative TryLock loops",
+              "BroadcastTimeout 2 ms, LeavePropagateDelay 1 ms; waits inside Leave are 'blocked in the runtime' for the scheduler",
+              "the panic 'leave after shutdown' inside memberlist.Leave (Leave racing Shutdown) is recovered by the harness and "
+              "reported as a call result; it is outside C34's clauses",
+              "'a leave or shutdown had begun' is read as: its state change was observable through State() before Join was invoked"]
+    vlib.finish(ctx, "model_checking", cov, assume, new, known)
+
+
 def run(ctx, replay=None):
     if ctx.prop == "C29":
         return run_c29(ctx, replay)
